@@ -159,6 +159,20 @@ PROPS = {
           'goroutine profiles showing Eval parked). Non-trivial: >=1 hand-off and a non-OK outcome or non-INIT initial state.',
           variants={'quick': ['plain'], 'thorough': ['plain', 'race']}, nbatch=(8, 16),
           must_observe=['handoffs', 'resubmissions', 'two_evaluator_histories']),
+ 'C14': P('exploration',
+          'three monitors. (a) placement: every configuration of <= 2 (quick) / 4 (thorough) queued requests (priority 0..2, procs 1..4) and <= 3 '
+          'machines (capacity 1..4, any load) is given to the real schedule() (verif export); oracle: an independent implementation of the documented '
+          'rule compared on (priority, procs) of the chosen request and free capacity of the chosen machine, plus fit, preservation of both queues '
+          'and heap-index consistency; exhaustive in that space. (b) live manager: seeded histories of offer / receive / cancel / done(ok | remote '
+          'error | transport error) / kill over a real machineManager on a testsystem, max-load in {0.3,0.5,1} x machine procs {1,2,4} x parallelism '
+          '{1,3,8}; a loop hook (tag verif) publishes a copy of the manager state at every iteration, on which 0<=taskProcs<=capacity, need>=0, '
+          'pending>=0 are asserted; a client-side ledger cross-checks grants; at the end quiescence (all returned/cancelled => need=0, queue empty, '
+          'all taskProcs=0) and machines started <= ceil(min(peak need, parallelism)/capacity) + machines lost. (c) end to end: programs with '
+          'Procs/Exclusive pragmas through real sessions with every exit path provoked (success, user panic, persistent temporary error, machine '
+          'kill after a task, kill before a combiner commit under machine combiners), then quiescence; local executor: a gauge in the source '
+          'functions never exceeds Parallelism and reads 1 while an Exclusive task runs. Non-trivial: queue and machine list non-empty / >=1 event.',
+          nbatch=(13, 16), timeout=(900, 3400),
+          must_observe=['placement_nontrivial', 'manager_snapshots_checked', 'offers_granted', 'e2e_runs', 'local_runs']),
 }
 
 META = {
@@ -253,4 +267,10 @@ META = {
     note='Which interleaving is explored depends on goroutine scheduling (quiescence is detected by spinning); verdicts depend only on logical '
          'timestamps and, for stalls, on two goroutine profiles. enableMaxConsecutiveLost is at its default (true).',
     technique='adversarial-executor runtime monitoring with a trace oracle; goroutine-profile stall proof'),
+ 'C14': dict(
+    text='Exhaustive differential check of the placement function against an independent statement of the documented rule; invariant monitoring '
+         'of the live manager on state snapshots taken inside its own goroutine; quiescence checks after every exit path of real runs.',
+    note='Hooks: exec.VerifSchedule, VerifNewManager/Offer/Done, verifManagerLoop (one call at the top of machineManager.Do; no-op without the tag). '
+         'Ties between equally loaded machines and equal requests are unspecified and compared by value only.',
+    technique='exhaustive differential testing + invariant monitoring on hooked state snapshots + conservation (procs granted == procs returned)'),
 }
